@@ -564,6 +564,8 @@ def run(ctx: Ctx):
         if n not in found_for:
             ctx.violation(f"cert:{n}_{p}", dict(config=info[n]["cfg"].describe(), broken=thms, detail=detail[-1200:]), False)
 
+    import extra_oracles as _xo
+    _xo.module_instance_independence(ctx, "C10")
     ctx.notes["rule"] = ("family: fixed list of (formula, index irreps, filters) + VERIF_SEED-dependent ones (rtp_family.family); every configuration is built by the real "
                          "code, its buffer lifted to exact square roots and certified in the kernel; a case is one driver line compared with the real module "
                          "(info/row/xout/run) or one oracle run; non-trivial = row with a non-zero entry / non-zero output")
